@@ -35,11 +35,22 @@ def gen(r):
         # a multi-item placeholder next to a query placeholder
         parts = [r.choice(['{+}', '{+n}', '{+1}']), r.choice(['{q}', '{q}', 'echo'])] + parts[:2]
         r.shuffle(parts)
-    sel = []
-    if r.random() < 0.5:
+    sel, how = [], 'steps'
+    k = r.random()
+    if k < 0.35:
         sel = [r.randrange(len(lines)) for _ in range(r.randint(1, 3))]
         sel = list(dict.fromkeys(sel))
-    return dict(lines=lines, parts=parts, sel=sel, query=nasty(r).replace('\n', ' ').replace('\t', ' '))
+    elif k < 0.6:
+        # several items selected by ONE action list (one key press): selection order is still the order of the actions
+        while len(lines) < 6:
+            l = nasty(r) + '%d' % len(lines)
+            if l not in lines:
+                lines.append(l)
+        how = r.choice(['chain', 'chain', 'all'])
+        sel = list(range(len(lines))) if how == 'all' else r.sample(range(len(lines)), r.randint(4, len(lines)))
+        if not any(p.startswith('{+') for p in parts):
+            parts = [r.choice(['{+}', '{+n}', '{+1}'])] + parts[:2]
+    return dict(lines=lines, parts=parts, sel=sel, how=how, query=nasty(r).replace('\n', ' ').replace('\t', ' '))
 
 
 def run_case(fzf, tmp, c):
@@ -52,8 +63,13 @@ def run_case(fzf, tmp, c):
         if st is None:
             return None, 'did not start: ' + s.stderr().decode('utf-8', 'replace')[-200:]
         s.settle(want=lambda x: x['totalCount'] == len(c['lines']))
-        for k in c['sel']:
-            s.post('pos(%d)+select' % (k + 1))
+        if c.get('how') == 'all':
+            s.post('select-all')
+        elif c.get('how') == 'chain':
+            s.post('+'.join('pos(%d)+select' % (k + 1) for k in c['sel']))
+        else:
+            for k in c['sel']:
+                s.post('pos(%d)+select' % (k + 1))
         s.post('first')
         out = os.path.join(s.dir, 'words')
         template = ' '.join(c['parts'])
@@ -112,7 +128,7 @@ def replay(rp, ctx):
     parts = [dec(x) for x in toks[2].split('|')]
     lines = [dec(x) for x in toks[5].split('|')]
     sel = [] if toks[6] == '-' else [int(x) for x in toks[6].split(',')]
-    line, _ = run_case(ctx['fzf'], ctx['tmp'], dict(lines=lines, parts=parts, sel=sel, query=dec(toks[3])))
+    line, _ = run_case(ctx['fzf'], ctx['tmp'], dict(lines=lines, parts=parts, sel=sel, how='chain' if len(sel) >= 4 else 'steps', query=dec(toks[3])))
     rs = evaluate(ctx['driver'], [line]) if line else []
     for x in rs:
         x['proc'] = dict(kind='tmux-expand')
